@@ -245,8 +245,11 @@ def case_view_history(ctx, r, B):
     nops = r.randint(3, 14)
     site_of = {'m': 'BQM', 'hv': f'BQM.{other0.lower()}(held)', 'm.spin': 'BQM.spin', 'm.binary': 'BQM.binary'}
 
+    st = {'hv': other0}     # the held view's own vartype (`hv.change_vartype` re-types the view object in place)
+    stale = r.random() < .4  # histories that dwell on the held view after the vartypes were made to coincide / differ again
+
     def objvt(o):
-        return {'m': ref.vt, 'hv': other0, 'm.spin': 'SPIN', 'm.binary': 'BINARY'}[o]
+        return {'m': ref.vt, 'hv': st['hv'], 'm.spin': 'SPIN', 'm.binary': 'BINARY'}[o]
 
     def repro(extra=''):
         body = []
@@ -266,13 +269,49 @@ def case_view_history(ctx, r, B):
                 f'assert m.vartype.name == {ref.vt!r}\n')
 
     for step in range(nops):
-        o = r.choice(['m', 'm', 'hv', 'hv', 'm.spin', 'm.binary'])
+        if stale and step >= 2:
+            o = r.choice(['m', 'hv', 'hv', 'hv'])
+            kind = r.choice(['addlin', 'addquad', 'addquad', 'setlin', 'setoff', 'cv', 'cv', 'hvcv', 'getlin', 'getquad', 'getoff',
+                             'energies', 'energies', 'toqubo', 'toising'])
+        else:
+            o = r.choice(['m', 'm', 'hv', 'hv', 'm.spin', 'm.binary'])
+            kind = r.choice(['addlin', 'addlin', 'addquad', 'addquad', 'addquad', 'setlin', 'setquad', 'addvar', 'setoff', 'rmint', 'rmvar',
+                             'cv', 'getlin', 'getquad', 'getoff', 'energies', 'toqubo', 'toising', 'hvcv'])
+        if kind == 'hvcv':
+            # re-type the held view object itself: from now on it reads/writes as a view of `target`
+            target = r.choice(['SPIN', 'BINARY'])
+            call = f'hv.change_vartype({target!r}, inplace=True)'
+            exec(call, R.ns); hist.append(call); st['hv'] = target
+            ctx.tick('BQM(held view).change_vartype')
+            continue
         view = objvt(o)
         through_view = view != ref.vt
-        kind = r.choice(['addlin', 'addlin', 'addquad', 'addquad', 'addquad', 'setlin', 'setquad', 'addvar', 'setoff', 'rmint', 'rmvar',
-                         'cv', 'getlin', 'getquad', 'getoff', 'energies'])
         obj = R.ev(o)
         Pv = ref.in_view(view)
+        if kind in ('toqubo', 'toising'):
+            if not ref.vars or len(ref.vars) > 4:
+                continue
+            site = f'{site_of[o]}.{"to_qubo" if kind == "toqubo" else "to_ising"}'
+            ctx.tick(site + (':view' if through_view else ''))
+            ctx.case((site, tuple(hist)), nontrivial=True)
+            dom_vt = 'BINARY' if kind == 'toqubo' else 'SPIN'
+            Pd = ref.in_view(dom_vt)
+            try:
+                if kind == 'toqubo':
+                    Qd, qoff = obj.to_qubo()
+                    ev = lambda x: F(qoff) + sum(F(bb) * x[a_] * x[c_] for (a_, c_), bb in Qd.items())  # noqa
+                else:
+                    hd, Jd, ioff = obj.to_ising()
+                    ev = lambda x: F(ioff) + sum(F(bb) * x[a_] for a_, bb in hd.items()) + sum(F(bb) * x[a_] * x[c_] for (a_, c_), bb in Jd.items())  # noqa
+                bad = next((x for x in all_samples(ref.vars, dom_vt) if ev(x) != Pd.eval(x)), None)
+                what = None if bad is None else f'at {bad}: {ev(bad)} but the converted polynomial gives {Pd.eval(bad)}'
+            except Exception as e:  # noqa
+                what = f'{type(e).__name__}: {e}'
+            if what:
+                ctx.fail('property', site, ('held view of equal vartype' if o == 'hv' and not through_view else 'through a view' if through_view else 'base'),
+                         what, repro=repro(f'print({o}.{"to_qubo" if kind == "toqubo" else "to_ising"}())\nassert False, {what!r}\n'))
+                return
+            continue
         err = None
         call = None
         read = None
